@@ -271,6 +271,20 @@ def reduce_event(c, idx=0):
                     ev["lazy_shapes"] = [[list(lz.shape)] + [list(a.shape) for a in lzd], [list(got.shape)] + [list(b.shape) for b in gotd]]
                 else:
                     ev["lazy_ppb"] = [ppb(relerr(lz, got))] + [ppb(relerr(a, b)) for a, b in zip(lzd, gotd)]
+                # the other routes to the same waves: the S-matrix built eagerly as ONE array object (all configurations) and then reduced
+                bt = smatrix().build(lazy=False).reduce(scan=scan, ctf=ctf if hist == "ctf_reused" else ctf.copy())
+                bt = np.asarray((bt.compute() if hasattr(bt, "compute") else bt).array)
+                ev["lazy_ppb"].append(ppb(relerr(bt, got)) if bt.shape == got.shape else 10 ** 9)
+                # schedules: a lazy reduction with the default aperture (ctf=None) that is computed only AFTER another S-matrix with the
+                # same cutoff but another energy and cell has been reduced in the same process
+                SA = smatrix()
+                ra = SA.reduce(scan=scan, lazy=True)
+                SB = abtem.SMatrix(extent=(extent[0] * 1.25, extent[1]), gpts=gpts, energy=200e3, semiangle_cutoff=float(SA.semiangle_cutoff), interpolation=f,
+                                   downsample=ds)
+                SB.reduce(scan=scan, lazy=False)
+                ra = np.asarray(ra.compute().array)                       # computed now, before anything else touches shared state again
+                ea = np.asarray(smatrix().reduce(scan=scan, lazy=False).array)
+                ev["lazy_ppb"].append(ppb(relerr(ra, ea)) if ra.shape == ea.shape else 10 ** 9)
             except Exception as ex:
                 ev["raised"] = True
                 ev["exc"] = f"lazy: {type(ex).__name__}: {ex}"[:300]
